@@ -57,10 +57,67 @@ Proof. exact pol_sound. Qed.
 Print Assumptions C11_pol_sound.
 
 (* ---- Ackermannization (code repaired by build/fixes/C11_ackermann_nested.diff) ----
-   Shape is a theorem; ack_complete / ack_sound are not proved (correspondence + search only). *)
+   Shape, completeness and soundness are theorems (proofs/Ackermann_proofs.v). *)
 From PySMT.models Require Import Ackermann.
 From PySMT.proofs Require Import Ackermann_proofs.
 Theorem C11_ack_shape : forall f guess names,
   has_app (fst (ackermannize f (init_astate guess names))) = false.
 Proof. exact ack_shape. Qed.
 Print Assumptions C11_ack_shape.
+
+(* completeness: the witness gives every fresh constant the value of its application.
+   Side conditions: f quantifier-free, well-typed and in the C01 fragment [okt]; I well-sorted;
+   the manager (names) knows f's symbols. *)
+From PySMT.core Require Import Sem.
+From PySMT.models Require Import TypeChecker Oracles.
+From PySMT.proofs Require Import SimplifierSemBase_proofs.
+Theorem C11_ack_complete : forall f guess names I,
+  is_qf f = true -> okt f = true -> (exists ty, tc f = Some ty) -> incl (symnames f) names -> wf_interp I ->
+  holds I f ->
+  let r := ackermannize f (init_astate guess names) in
+  exists I', agrees_off (ack_constants (snd r)) I I' /\ holds I' (fst r) /\
+             (forall n, In n (ack_constants (snd r)) -> ~ In n names).
+Proof. exact ack_complete_wf. Qed.
+Print Assumptions C11_ack_complete.
+
+(* soundness: from a well-sorted J satisfying the result, an interpretation that differs from J
+   only on function symbols (the eliminated functions are read off the constants, which is well
+   defined because the consistency implications hold) satisfies the input; nested applications
+   included, no typing condition on f *)
+Theorem C11_ack_sound : forall f guess names J, is_qf f = true -> wf_interp J ->
+  holds J (fst (ackermannize f (init_astate guess names))) ->
+  exists I, isym I = isym J /\ rdiv0 I = rdiv0 J /\ idiv0 I = idiv0 J /\ holds I f.
+Proof. exact ack_sound_wf. Qed.
+Print Assumptions C11_ack_sound.
+
+(* ---- the CNF theorems with the simplifier hypothesis discharged by C01 ----
+   [frag_simplify ora] is the simplifier model (models/Simplifier.v, any order oracle) on
+   well-typed, division-free Bool terms of C01's fragment ([frag_atom]) and the identity
+   elsewhere; interpretations are the well-sorted ones ([wfi] <-> Sem.wf_interp).  No hypothesis
+   about the simplifier is left in these four statements; [shape_hyp] is not discharged. *)
+From PySMT.models Require Import Simplifier.
+From PySMT.proofs Require Import CnfSimp_proofs.
+Theorem C11_cnf_complete_simplifier : forall ora f st cl st' I, start_ok f st ->
+  cnf_convert (frag_simplify ora) f st = Some (cl, st') -> wfi I -> holds I f ->
+  exists I', agrees_off (introduced st') I I' /\ sat I' cl = true /\ holds I' (as_formula cl) /\
+             (forall n, In n (introduced st') -> ~ In n (mnames (mgr st))).
+Proof. exact cnf_complete_simplifier. Qed.
+Print Assumptions C11_cnf_complete_simplifier.
+Theorem C11_cnf_sound_simplifier : forall ora f st cl st' J, start_ok f st ->
+  cnf_convert (frag_simplify ora) f st = Some (cl, st') -> wfi J -> sat J cl = true -> holds J f.
+Proof. exact cnf_sound_simplifier. Qed.
+Print Assumptions C11_cnf_sound_simplifier.
+Theorem C11_pol_complete_simplifier : forall ora f st cl st' I, start_ok f st ->
+  pol_convert (frag_simplify ora) f st = Some (cl, st') -> wfi I -> holds I f ->
+  exists I', agrees_off (introduced st') I I' /\ sat I' cl = true /\ holds I' (as_formula cl) /\
+             (forall n, In n (introduced st') -> ~ In n (mnames (mgr st))).
+Proof. exact pol_complete_simplifier. Qed.
+Print Assumptions C11_pol_complete_simplifier.
+Theorem C11_pol_sound_simplifier : forall ora f st cl st' J, start_ok f st ->
+  pol_convert (frag_simplify ora) f st = Some (cl, st') -> wfi J -> sat J cl = true -> holds J f.
+Proof. exact pol_sound_simplifier. Qed.
+Print Assumptions C11_pol_sound_simplifier.
+Theorem C11_frag_simplify_is_the_simplifier : forall ora t, frag_atom t = true ->
+  frag_simplify ora t = simplify_with ora t.
+Proof. exact frag_simplify_is_simplify. Qed.
+Print Assumptions C11_frag_simplify_is_the_simplifier.
